@@ -127,10 +127,10 @@ theorem copy_equal_list_st {st : State} (h : SInv st) (ha : Ops.AllAlive st) (v 
     rw [step_eq hcomp hexec, hab, hw1]
 
 /-- a List copy has the value of its source -/
-theorem copy_equal_list (ops : List Op) (v w : Nat) (hv : v ≤ 1) (hw : w ≤ 1) (hne : v ≠ w) :
-    absNode (step (run init ops) (.copy ⟨.L, v⟩ w)) ⟨.L, v⟩ = absNode (run init ops) ⟨.L, w⟩ ∧
-    absNode (step (run init ops) (.assign ⟨.L, v⟩ w)) ⟨.L, v⟩ = absNode (run init ops) ⟨.L, w⟩ :=
-  copy_equal_list_st (reach_ok ops).1 (Ops.allAlive_reach ops) v w hv hw hne
+theorem copy_equal_list (p : Per) (ops : List Op) (v w : Nat) (hv : v ≤ 1) (hw : w ≤ 1) (hne : v ≠ w) :
+    absNode (step (run (init p) ops) (.copy ⟨.L, v⟩ w)) ⟨.L, v⟩ = absNode (run (init p) ops) ⟨.L, w⟩ ∧
+    absNode (step (run (init p) ops) (.assign ⟨.L, v⟩ w)) ⟨.L, v⟩ = absNode (run (init p) ops) ⟨.L, w⟩ :=
+  copy_equal_list_st (reach_ok p ops).1 (Ops.allAlive_reach p ops) v w hv hw hne
 
 -- Array ------------------------------------------------------------------------------------------------------
 
@@ -231,9 +231,9 @@ theorem copy_equal_array_st {st : State} (h : SInv st) (ha : Ops.AllAlive st) (v
     rw [step_eq hcomp hexec, hab, hw1]
 
 /-- an Array copy has the value of its source -/
-theorem copy_equal_array (ops : List Op) (v w : Nat) (hv : v ≤ 1) (hw : w ≤ 1) (hne : v ≠ w) :
-    absArr (step (run init ops) (.copy ⟨.A, v⟩ w)) v = absArr (run init ops) w ∧
-    absArr (step (run init ops) (.assign ⟨.A, v⟩ w)) v = absArr (run init ops) w :=
-  copy_equal_array_st (reach_ok ops).1 (Ops.allAlive_reach ops) v w hv hw hne
+theorem copy_equal_array (p : Per) (ops : List Op) (v w : Nat) (hv : v ≤ 1) (hw : w ≤ 1) (hne : v ≠ w) :
+    absArr (step (run (init p) ops) (.copy ⟨.A, v⟩ w)) v = absArr (run (init p) ops) w ∧
+    absArr (step (run (init p) ops) (.assign ⟨.A, v⟩ w)) v = absArr (run (init p) ops) w :=
+  copy_equal_array_st (reach_ok p ops).1 (Ops.allAlive_reach p ops) v w hv hw hne
 
 end Nstd.Life.Copy
